@@ -204,12 +204,14 @@ Definition body_view (b : abody) (tv : view) : view :=
   end.
 
 (* ---- harness interface ----
-   case (payload xcb xserver pid api)        api: which wrapper is called (Data / WriteData / Success,
+   case (payload xcb xserver pid api xmb)     api: which wrapper is called (Data / WriteData / Success,
                                               Error / WriteError / CplxError / WriteCplxError); not modelled apart
      payload = (0 v xmerr tv) | (1 c) | (2 c xmsg w) | (3 c xmsg hs) | (4 st xmsg tv) | (5 xversion): WriteVersion   st = -1: no Status()
      v = (0) | (1 b) | (2 bits) | (3 xstr) | (4 v...) | (5 (xkey v)...) | (6 k)
      tv = (0) | (1) | (2) | (3 c): what encoding/json + apiParse make of the text body
-   observation (status ctype xserver body client)
+   xmb: json.Marshal of the expected envelope object, computed by the harness itself (empty for
+   text bodies).
+   observation (status ctype xserver body client xwire)   xwire = the complete body bytes
      ctype 0 json 1 javascript 2 text;  body = (0 xcb ((xkey v)...)) | (1 xtext)
      client = (err code) for a request without callback, () otherwise *)
 Fixpoint sx_jv (fuel : nat) (s : sx) : option jv :=
@@ -312,22 +314,29 @@ Definition body_sx (b : abody) : sx :=
   | BText t => SL [SZ 1; SB t]
   end.
 
+(* the bytes on the wire, given the bytes json.Marshal produces for the members of an envelope
+   body ([mb]; supplied to the model run by the harness's own json.Marshal call -- the oracle
+   replayed): fmt.Fprintf(w, "%s(%s)", cb, string(b)) with a callback, w.Write(b) without *)
+Definition wire_exec (mb : bytes) (b : abody) : bytes :=
+  match b with
+  | BEnv [] _ => mb
+  | BEnv cb _ => cb ++ [40%N] ++ mb ++ [41%N]
+  | BText t => t
+  end.
+
+Definition obs_c19 (r : resp) (cb : bytes) (tv : view) (mb : bytes) : sx :=
+  let cl := if is_nil cb
+            then let '(code, err) := client (status r) (body_view (body r) tv) in SL [sbool err; SZ code]
+            else SL [] in
+  SL [SZ (status r); SZ (ctype_code (ctyp r)); SB (server r); body_sx (body r); cl; SB (wire_exec mb (body r))].
+
 Definition run_c19 (c : sx) : sx :=
   match c with
-  | SL [SL [SZ 5; SB ver]; SB cb; SB srv; SZ pd; SZ _] =>
-      let r := respond_version {| srv_name := srv; pid := pd |} cb ver in
-      let cl := if is_nil cb
-                then let '(code, err) := client (status r) (body_view (body r) VFail) in SL [sbool err; SZ code]
-                else SL [] in
-      SL [SZ (status r); SZ (ctype_code (ctyp r)); SB (server r); body_sx (body r); cl]
-  | SL [p; SB cb; SB srv; SZ pd; SZ _] =>
+  | SL [SL [SZ 5; SB ver]; SB cb; SB srv; SZ pd; SZ _; SB mb] =>
+      obs_c19 (respond_version {| srv_name := srv; pid := pd |} cb ver) cb VFail mb
+  | SL [p; SB cb; SB srv; SZ pd; SZ _; SB mb] =>
       match sx_payload p with
-      | Some (pl, tv) =>
-          let r := respond {| srv_name := srv; pid := pd |} cb pl in
-          let cl := if is_nil cb
-                    then let '(code, err) := client (status r) (body_view (body r) tv) in SL [sbool err; SZ code]
-                    else SL [] in
-          SL [SZ (status r); SZ (ctype_code (ctyp r)); SB (server r); body_sx (body r); cl]
+      | Some (pl, tv) => obs_c19 (respond {| srv_name := srv; pid := pd |} cb pl) cb tv mb
       | None => bad_case
       end
   | _ => bad_case
